@@ -84,9 +84,14 @@ void ezc3d::DataNS::Points3dNS::Points::point(const ezc3d::DataNS::Points3dNS::P
     if (idx == SIZE_MAX)
         _points.push_back(point);
     else{
-        if (idx >= nbPoints())
+        if (idx >= nbPoints()){
+            // point may be an element of _points, copy it before the vector grows
+            const ezc3d::DataNS::Points3dNS::Point source(point);
             _points.resize(idx+1);
-        _points[idx] = point;
+            _points[idx] = source;
+        }
+        else
+            _points[idx] = point;
     }
 }
 
